@@ -708,169 +708,6 @@ func stmtLists(n syntax.Node, fn func(stmts []*syntax.Stmt)) {
 	})
 }
 
-// wroteSemiSim mirrors the printer's `wroteSemi` flag in print order: reset at the start of every
-// Stmt, set by a trailing & / |& / &|, by `{` of a Block and by a case item's `;;` operator.
-// It returns the flag's value after printing n, given its value before.
-func wroteSemiSim(n syntax.Node, ws bool, leak *[2]bool) bool {
-	// leak[0]: between two statements of a list (matters under SingleLine);
-	// leak[1]: before a closing keyword, after a statement that ends in a word (every mode).
-	listK := func(stmts []*syntax.Stmt, keyword bool) {
-		for i, s := range stmts {
-			if i > 0 && ws && !(stmts[i-1].Background || stmts[i-1].Coprocess || stmts[i-1].Disown) {
-				leak[0] = true
-			}
-			ws = wroteSemiSim(s, ws, leak)
-		}
-		if n := len(stmts); keyword && n > 0 && ws && !(stmts[n-1].Background || stmts[n-1].Coprocess || stmts[n-1].Disown) && stmtEndsInWord(stmts[n-1]) {
-			leak[1] = true
-		}
-	}
-	list := func(stmts []*syntax.Stmt) { listK(stmts, true) }
-	listP := func(stmts []*syntax.Stmt) { listK(stmts, false) }
-	switch x := n.(type) {
-	case nil:
-	case *syntax.File:
-		listP(x.Stmts)
-	case *syntax.Stmt:
-		ws = false
-		if x.Cmd != nil {
-			ws = wroteSemiSim(x.Cmd, ws, leak)
-		}
-		for _, r := range x.Redirs {
-			if r.Word != nil {
-				ws = wroteSemiSim(r.Word, ws, leak)
-			}
-		}
-		if x.Background || x.Coprocess || x.Disown {
-			ws = true
-		}
-	case *syntax.Block:
-		ws = true
-		list(x.Stmts)
-	case *syntax.Subshell:
-		listP(x.Stmts)
-	case *syntax.CmdSubst:
-		if x.TempFile || x.ReplyVar {
-			list(x.Stmts)
-		} else {
-			listP(x.Stmts)
-		}
-	case *syntax.ProcSubst:
-		listP(x.Stmts)
-	case *syntax.IfClause:
-		for c := x; c != nil; c = c.Else {
-			list(c.Cond)
-			list(c.Then)
-		}
-	case *syntax.WhileClause:
-		list(x.Cond)
-		list(x.Do)
-	case *syntax.ForClause:
-		if wi, ok := x.Loop.(*syntax.WordIter); ok {
-			for _, w := range wi.Items {
-				ws = wroteSemiSim(w, ws, leak)
-			}
-			if ws {
-				leak[1] = true // `for i in $(a &) do`
-			}
-		}
-		list(x.Do)
-	case *syntax.CaseClause:
-		ws = wroteSemiSim(x.Word, ws, leak)
-		for _, ci := range x.Items {
-			for _, w := range ci.Patterns {
-				ws = wroteSemiSim(w, ws, leak)
-			}
-			list(ci.Stmts)
-			ws = true
-		}
-	case *syntax.BinaryCmd:
-		ws = wroteSemiSim(x.X, ws, leak)
-		ws = wroteSemiSim(x.Y, ws, leak)
-	case *syntax.FuncDecl:
-		ws = wroteSemiSim(x.Body, ws, leak)
-	case *syntax.TimeClause:
-		if x.Stmt != nil {
-			ws = wroteSemiSim(x.Stmt, ws, leak)
-		}
-	case *syntax.CoprocClause:
-		ws = wroteSemiSim(x.Stmt, ws, leak)
-	case *syntax.TestDecl:
-		ws = wroteSemiSim(x.Body, ws, leak)
-	case *syntax.CallExpr:
-		for _, a := range x.Assigns {
-			if a.Value != nil {
-				ws = wroteSemiSim(a.Value, ws, leak)
-			}
-			if a.Array != nil {
-				for _, e := range a.Array.Elems {
-					if e.Value != nil {
-						ws = wroteSemiSim(e.Value, ws, leak)
-					}
-				}
-			}
-		}
-		for _, w := range x.Args {
-			ws = wroteSemiSim(w, ws, leak)
-		}
-	case *syntax.DeclClause:
-		for _, a := range x.Args {
-			if a.Value != nil {
-				ws = wroteSemiSim(a.Value, ws, leak)
-			}
-		}
-	case *syntax.Word:
-		for _, p := range x.Parts {
-			ws = wroteSemiSim(p, ws, leak)
-		}
-	case *syntax.DblQuoted:
-		for _, p := range x.Parts {
-			ws = wroteSemiSim(p, ws, leak)
-		}
-	case *syntax.ParamExp:
-		if x.Exp != nil && x.Exp.Word != nil {
-			ws = wroteSemiSim(x.Exp.Word, ws, leak)
-		}
-		if x.Repl != nil {
-			if x.Repl.Orig != nil {
-				ws = wroteSemiSim(x.Repl.Orig, ws, leak)
-			}
-			if x.Repl.With != nil {
-				ws = wroteSemiSim(x.Repl.With, ws, leak)
-			}
-		}
-	}
-	return ws
-}
-
-func wroteSemiLeaks(n syntax.Node) (betweenStmts, beforeKeyword bool) {
-	var leak [2]bool
-	safely(func() { wroteSemiSim(n, false, &leak) })
-	return leak[0], leak[1]
-}
-
-// stmtEndsInWord: the last token printed for s is a word (not a closing reserved word or `)`).
-func stmtEndsInWord(s *syntax.Stmt) bool {
-	if len(s.Redirs) > 0 {
-		return true
-	}
-	switch c := s.Cmd.(type) {
-	case *syntax.CallExpr, *syntax.DeclClause, *syntax.LetClause:
-		return true
-	case *syntax.BinaryCmd:
-		return stmtEndsInWord(c.Y)
-	case *syntax.FuncDecl:
-		return stmtEndsInWord(c.Body)
-	case *syntax.TimeClause:
-		return c.Stmt == nil || stmtEndsInWord(c.Stmt)
-	case *syntax.CoprocClause:
-		return stmtEndsInWord(c.Stmt)
-	case *syntax.TestDecl:
-		return stmtEndsInWord(c.Body)
-	}
-	return false
-}
-
 func hdocDelimQuoted(w *syntax.Word) bool {
 	for _, p := range w.Parts {
 		l, ok := p.(*syntax.Lit)
@@ -1071,20 +908,10 @@ func c01Excluded(tc l4Case, f *syntax.File, sh *shape) string {
 	if o.Minify && o.Single {
 		return "" // only the refusal is checked
 	}
-	// (C01-comment-backslash-newline — a comment ending in a backslash swallowed the newline — was
-	// repaired in /repo by a fix: commit; its witness stays in corpus/C01-known.txt and is no
-	// longer excluded.)
-	// C01-single-missing-semicolon: SingleLine joins statements with `;` only when the printer's
-	// wroteSemi flag is false, but the flag is stale after a nested `&`, `{` or `;;`.
-	between, beforeKw := wroteSemiLeaks(f)
-	if o.Single && between {
-		return "C01-single-missing-semicolon"
-	}
-	// C01-stale-wrotesemi-keyword: the same stale flag suppresses the `;` before do/then/done/fi/}
-	// when the statement before the keyword ends in a word holding a nested `&` (`for i in $(a &); do`).
-	if beforeKw {
-		return "C01-stale-wrotesemi-keyword"
-	}
+	// Repaired in /repo by fix: commits (witnesses replayed from corpus/C01-fixed.txt, no exclusion
+	// any more): comment-backslash-newline, single-missing-semicolon, stale-wrotesemi-keyword,
+	// dashhdoc-inner-tab, minify-last-case-op, tabwriter-vt-ff, zsh-minify-short-subscript,
+	// minify-empty-block, command-first-newline.
 	// C01-single-heredoc-test-let (root cause in the parser): a here-document body is not read
 	// when the line carrying the `<<` operator ends in `]]` or a `let` expression; SingleLine
 	// joins statements onto such lines.
@@ -1108,14 +935,6 @@ func c01Excluded(tc l4Case, f *syntax.File, sh *shape) string {
 		return ok && r.Hdoc != nil && hdocDelimQuoted(r.Word) && r.Hdoc.Pos().Line() > r.Word.End().Line()+1
 	}) {
 		return "C01-quoted-heredoc-backslash-newline"
-	}
-	// C01-minify-last-case-op: Minify drops the operator of the last case item, so `;&` / `;;&`
-	// there re-parse as `;;` (not a documented rewrite).
-	if o.Minify && sh.any(func(n syntax.Node) bool {
-		cc, ok := n.(*syntax.CaseClause)
-		return ok && len(cc.Items) > 0 && cc.Items[len(cc.Items)-1].Op != syntax.Break
-	}) {
-		return "C01-minify-last-case-op"
 	}
 	// C01-mksh-case-braces: `case x { … }` is printed as `case x in … esac` (Braces lost; by design,
 	// not in the documented list).
@@ -1202,35 +1021,6 @@ func c01Excluded(tc l4Case, f *syntax.File, sh *shape) string {
 	}) {
 		return "C01-dashhdoc-escaped-newline"
 	}
-	// C01-dashhdoc-inner-tab: with tab indentation (Indent 0, no Minify) the body of a <<-
-	// here-document is written through extraIndenter, which escapes only the leading tabs; a tab
-	// further inside a line reaches text/tabwriter unescaped and is turned into padding spaces.
-	if o.Indent == 0 && !o.Minify && sh.any(func(n syntax.Node) bool {
-		r, ok := n.(*syntax.Redirect)
-		if !ok || r.Op != syntax.DashHdoc || r.Hdoc == nil {
-			return false
-		}
-		ls := true
-		for _, p := range r.Hdoc.Parts {
-			l, ok := p.(*syntax.Lit)
-			if !ok {
-				ls = false
-				continue
-			}
-			for i := 0; i < len(l.Value); i++ {
-				switch b := l.Value[i]; {
-				case b == '\t' && !ls:
-					return true
-				case b == '\t':
-				default:
-					ls = b == '\n'
-				}
-			}
-		}
-		return false
-	}) {
-		return "C01-dashhdoc-inner-tab"
-	}
 	// C01-heredoc-then-multiline-subst: a here-document is pending and a command/process
 	// substitution later on the same line gets a newline inside (it spans lines, holds two
 	// statements, holds a function under FunctionNextLine, or — Minify — rightParen asks for one
@@ -1278,27 +1068,6 @@ func c01Excluded(tc l4Case, f *syntax.File, sh *shape) string {
 	}) {
 		return "C01-heredoc-then-multiline-subst"
 	}
-	// C01-zsh-minify-short-subscript: Minify turns `${x}[b]` into `$x[b]`, which zsh reads as a
-	// subscript (the printer only guards against name characters following).
-	if o.Minify && tc.Lang == syntax.LangZsh && sh.any(func(n syntax.Node) bool {
-		var parts []syntax.WordPart
-		switch x := n.(type) {
-		case *syntax.Word:
-			parts = x.Parts
-		case *syntax.DblQuoted:
-			parts = x.Parts
-		}
-		for i, p := range parts {
-			if pe, ok := p.(*syntax.ParamExp); ok && !pe.Short && paramSimple(pe) && i+1 < len(parts) {
-				if l, ok := parts[i+1].(*syntax.Lit); ok && strings.HasPrefix(l.Value, "[") {
-					return true
-				}
-			}
-		}
-		return false
-	}) {
-		return "C01-zsh-minify-short-subscript"
-	}
 	// C01-zsh-redirect-paren-word: zsh `> (0)` (redirection to a word starting with a parenthesis)
 	// is printed `>(0)`, a process substitution.
 	if tc.Lang == syntax.LangZsh && !o.SpaceRedir && sh.any(func(n syntax.Node) bool {
@@ -1311,13 +1080,6 @@ func c01Excluded(tc l4Case, f *syntax.File, sh *shape) string {
 	}) {
 		return "C01-zsh-redirect-paren-word"
 	}
-	// C01-minify-empty-block: Minify prints an empty block (mksh, zsh) as `{}`, a word.
-	if o.Minify && sh.any(func(n syntax.Node) bool {
-		b, ok := n.(*syntax.Block)
-		return ok && len(b.Stmts) == 0
-	}) {
-		return "C01-minify-empty-block"
-	}
 	// C01-escaped-cr-before-newline: a word ending in backslash + carriage return printed at the
 	// end of a line makes `\` CR LF, which the lexer reads as an escaped newline.
 	if strings.Contains(tc.Src, "\\\r") && sh.any(func(n syntax.Node) bool {
@@ -1325,12 +1087,6 @@ func c01Excluded(tc l4Case, f *syntax.File, sh *shape) string {
 		return ok && strings.HasSuffix(l.Value, "\\\r")
 	}) {
 		return "C01-escaped-cr-before-newline"
-	}
-	// C01-tabwriter-vt-ff: a vertical tab or form feed in a literal, quoted string or comment is
-	// written unescaped through text/tabwriter, which treats both as cell/flush controls and
-	// drops them.
-	if strings.ContainsAny(tc.Src, "\v\f") {
-		return "C01-tabwriter-vt-ff"
 	}
 	// C01-arith-sign-glue: `- -a`, `+ +a`, `- --a` print as `--a`, `++a`, `---a`; compact
 	// printing (Minify, ${a:x:y}) also glues `a - -b` into `a--b`.
